@@ -187,6 +187,15 @@ def simulate(L, K, lines):
             touched = [a[0], a[1]]
         elif op in ("junk",):
             pass
+        elif op == "cmpvec":
+            if slots.get(a[0]) is None or slots.get(a[1]) is None:
+                raise Invalid("comparison of a destroyed vector")
+        elif op == "cmpref":
+            x, y = slots.get(a[0]), slots.get(a[2])
+            if x is None or y is None or not (0 <= a[1] < len(x.elems)) or not (0 <= a[3] < len(y.elems)):
+                raise Invalid("comparison of a missing element")
+            if getattr(x, "moved_elems", False) or getattr(y, "moved_elems", False):
+                raise Invalid("comparison of moved-from elements")
         elif op == "observe":
             touched = [a[0]]
         else:
@@ -217,6 +226,8 @@ def parse_obs(lines):
             cur["events"].append(t[1:])
         elif t[0] == "RES":
             cur["res"] = int(t[1])
+        elif t[0] == "CMP":
+            cur["cmp"] = [int(x) for x in t[1:]]
         elif t[0] == "VEC":
             f = t.index("F")
             vec = {"size": int(t[2]), "cap": int(t[3]), "cons": int(t[4]), "aid": int(t[5]), "bid": int(t[6]),
@@ -257,6 +268,7 @@ MARKER_PROPS = {
     "PATHERR begin-end": {"C01", "C18", "C11"},
     "PATHERR distance": {"C11", "C01"},
     "PATHERR const-data": {"C11"},
+    "PATHERR cmp-operand-kind": {"C13", "C14"},
 }
 
 
@@ -540,6 +552,125 @@ def oracle_C18(L, K, lines, steps, spec):
     return v[:5]
 
 
+# ---------------------------------------------------------------- comparisons
+def obj_key(p, o):
+    """total order key of one object = the value type's own operator<"""
+    if p.ty in (lay.TUINT, lay.TU8, lay.TBYTE):
+        return sum(b << (8 * i) for i, b in enumerate(o))
+    if p.ty in (lay.TSINT, lay.TS8):
+        v = sum(b << (8 * i) for i, b in enumerate(o))
+        return v - (1 << (8 * len(o))) if v >> (8 * len(o) - 1) else v
+    return tuple(o)
+
+
+def elem_key(L, t):
+    return tuple(tuple(obj_key(p, o) for o in f) for f, p in zip(t, L))
+
+
+def cmp_operands(L, sp):
+    """spec-level keys of the operands of a comparison step (Python tuple comparison is
+    lexicographic with 'strict prefix is less': exactly std::tuple / std::vector semantics)"""
+    a = sp["args"]
+    if sp["op"] == "cmpvec":
+        x, y = sp["slots"][a[0]], sp["slots"][a[1]]
+        if getattr(x, "moved_elems", False) or getattr(y, "moved_elems", False):
+            return None
+        return tuple(elem_key(L, t) for t in x.elems), tuple(elem_key(L, t) for t in y.elems), ("vec", a[0], a[1])
+    if sp["op"] == "cmpref":
+        x, y = sp["slots"][a[0]], sp["slots"][a[2]]
+        return elem_key(L, x.elems[a[1]]), elem_key(L, y.elems[a[3]]), ("ref", a[0], a[1], a[2], a[3])
+    return None
+
+
+def oracle_C13(L, K, lines, steps, spec):
+    v = []
+    for i, (st, sp) in enumerate(zip(steps, spec)):
+        ops = cmp_operands(L, sp)
+        if ops is None or "cmp" not in st:
+            continue
+        kx, ky, what = ops
+        eq, ne = st["cmp"][0], st["cmp"][1]
+        if bool(eq) != (kx == ky):
+            v.append("step %d %s %s: operator== is %d but the operands %s the same elements, field sizes and values" % (
+                i, sp["op"], what[1:], eq, "hold" if kx == ky else "do not hold"))
+        if eq == ne:
+            v.append("step %d %s: operator!= (%d) is not the negation of operator== (%d)" % (i, sp["op"], ne, eq))
+    return v[:5]
+
+
+def oracle_C14(L, K, lines, steps, spec):
+    """C14 fixes the LAWS of the operators, that they depend on content only, and that the
+    vector order is the lexicographical comparison under the element order; it does not say
+    which strict order the element-level < is (the library's is a product order over the
+    compared runs).  All of that is checked on the implementation's own results."""
+    v = []
+    seen = {}
+    elem_lt = {}     # (content key, content key) -> observed element-level <
+    vec_obs = []
+    for i, (st, sp) in enumerate(zip(steps, spec)):
+        ops = cmp_operands(L, sp)
+        if ops is None or "cmp" not in st:
+            continue
+        kx, ky, what = ops
+        eq, ne, lt, le, gt, ge = st["cmp"]
+        if lt and eq:
+            v.append("step %d %s %s: a < b and a == b" % (i, sp["op"], what[1:]))
+        if lt and gt:
+            v.append("step %d %s %s: a < b and b < a (not asymmetric)" % (i, sp["op"], what[1:]))
+        if le != (not gt) or ge != (not lt):
+            v.append("step %d %s %s: <= / >= are not the negations of > / <" % (i, sp["op"], what[1:]))
+        if kx == ky and (lt or gt):
+            v.append("step %d %s %s: operands with equal contents but a < b or b < a" % (i, sp["op"], what[1:]))
+        seen[what] = (lt, gt)
+        if what[0] == "ref":
+            for key, val in (((kx, ky), lt), ((ky, kx), gt)):
+                if key in elem_lt and elem_lt[key] != val:
+                    v.append("step %d cmpref %s: element-level < differs between operands of equal contents" % (i, what[1:]))
+                elem_lt[key] = val
+        else:
+            vec_obs.append((i, kx, ky, lt, gt, what))
+    # vector < vector is std::lexicographical_compare under the element-level <
+    for i, kx, ky, lt, gt, what in vec_obs:
+        for a, b, obs, nm in ((kx, ky, lt, "<"), (ky, kx, gt, ">")):
+            exp = None
+            for ea, eb in zip(a, b):
+                if (ea, eb) not in elem_lt or (eb, ea) not in elem_lt:
+                    exp = "unknown"
+                    break
+                if elem_lt[(ea, eb)]:
+                    exp = True
+                    break
+                if elem_lt[(eb, ea)]:
+                    exp = False
+                    break
+            if exp is None:
+                exp = len(a) < len(b)
+            if exp != "unknown" and bool(obs) != exp:
+                v.append("step %d cmpvec %s: operator%s is %d, the lexicographical comparison of the element sequences under the element-level < gives %d" % (i, what[1:], nm, obs, exp))
+    # laws over the observed relation: irreflexive, mutually consistent, transitive
+    rel = {}
+    for what, (lt, gt) in seen.items():
+        if what[0] == "vec":
+            x, y = ("v", what[1]), ("v", what[2])
+        else:
+            x, y = ("r", what[1], what[2]), ("r", what[3], what[4])
+        rel[(x, y)] = lt
+        if x == y and lt:
+            v.append("a < a holds for %r (not irreflexive)" % (x,))
+    for (x, y), lt in rel.items():
+        gt = seen[("vec", x[1], y[1]) if x[0] == "v" else ("ref", x[1], x[2], y[1], y[2])][1]
+        if (y, x) in rel and rel[(y, x)] != gt:
+            v.append("a > b (%d) differs from b < a (%d) for %r %r" % (gt, rel[(y, x)], x, y))
+    nodes = {x for (x, _) in rel} | {y for (_, y) in rel}
+    for x in nodes:
+        for y in nodes:
+            if rel.get((x, y)):
+                for z in nodes:
+                    if rel.get((y, z)) and (x, z) in rel and not rel[(x, z)]:
+                        v.append("not transitive: a < b and b < c but not a < c for %r %r %r" % (x, y, z))
+    return v[:5]
+
+
 def live_blocks_after(steps):
     live = {}
     bad = []
@@ -754,6 +885,19 @@ def move_assign_units_key(prop, v):
 
 
 KEYS["move-assign-units"] = move_assign_units_key
+
+
+def less_product_order_key(prop, v):
+    """C14: element-level < is the conjunction of < over the compared runs/fields (a strict
+    partial order); std::lexicographical_compare over it is not transitive.  Explains a
+    transitivity failure of vector < on a list whose elements have two or more components"""
+    if lay.lex_components(v["L"]) < 2:
+        return False
+    texts = (v.get("oracle") or []) + [v["detail"]]
+    return all(x.startswith("not transitive") and "('v'," in x for x in texts)
+
+
+KEYS["less-product-order"] = less_product_order_key
 
 
 def known_key(prop, v, known):
